@@ -56,9 +56,15 @@ ASSUMPTIONS = ["single consumer, requests non-decreasing (the documented pull di
 
 def families(tier):
     q = tier == "quick"
-    return [
+    fams = [
         dict(name="nearest", ref="vf.props.c08:h_nearest",
              params={"k": 3, "m": 2} if q else {"k": 4, "m": 3},
              bounds="k publications (k<=3 quick, 4 thorough), m non-decreasing requests (2 / 3); gaps >= 1 us",
              must_cover=["served", "refused"]),
     ]
+    if not q:
+        from .. import chsrc
+        fams.append(dict(name="crosshair:nearest", kind="crosshair", ref="vf.chrun:replay", src=chsrc.NEAREST, params={},
+                         bounds="CrossHair on Output._interpolate with 3-4 publications, gaps <= 10^6 / 10^4 us (independent second encoding; inconclusive results are reported, not counted)",
+                         per_condition_timeout=60, must_cover=["ran"]))
+    return fams
